@@ -1017,3 +1017,7 @@ Qed.
    reader (reset per parse), and a fresh reader starts from its own *)
 Lemma unnamed_counter_reset_lemma cell rd n file e : feed cell (with_counter rd n) file e = feed cell rd file e.
 Proof. reflexivity. Qed.
+
+(* an opaque call (writer, Python engine, other readers) returns and leaves every cell of G as it was *)
+Lemma opaque_touches_nothing_lemma cap fmt g id : exec cap fmt g (OOpaque id) = (g, Ok VUnit).
+Proof. reflexivity. Qed.
